@@ -14,7 +14,7 @@ from analysis.mir import leaves, calls_in, show, walk, short
 from rules import dir_shared as ds, c01
 
 EXPLANATION = __doc__
-FLOOR = 16
+FLOOR = 17
 
 
 def run(ctx):
@@ -70,6 +70,7 @@ def run(ctx):
             has_call(dict(pp[0][3])['inserted'], 'get_append_only_proof_helper')
     ctx.ob('C04.G.collect', 'RF-BIND', ok, gp.path, '%s:%s' % (gp.file, gp.line),
            'each step pushes {unchanged = walk.0, inserted = walk.1} and its epoch ep' if ok else 'proof / epoch lists are not built one entry per step')
+    ds.empty_batch_noop(ctx, 'C04')
     walk_rules(ctx)
     c01_set_child(ctx)
     ds.join_rules(ctx, 'C04', want_writer_rule=False)
